@@ -16,10 +16,11 @@ PROPS = {
     "C19": {
         "suites": ["c19"],
         "level": "proof",
-        "proof_module": "GeoProofs.Props.C19",
-        "theorems": ["Geo.onSeg_iff_param", "Geo.raycast_on_iff", "Geo.raycast_in_iff", "Geo.raycast_on_not_in", "Geo.raycast_symm", "Geo.segIntersects_iff", "Geo.segIntersects_symm", "Geo.segContainsSeg_iff", "Geo.segContainsSeg_iff_subset", "Geo.collinearPt_iff", "Geo.segBox_tight", "Geo.spec_onSeg_iff", "Geo.spec_crosses_iff", "Geo.spec_segsMeet_iff"],
+        "translators": [{"name": "kernel", "out": "KernelGen.lean"}],
+        "proof_module": "GeoProofs.Props.C19All",
+        "theorems": ["Geo.onSeg_iff_param", "Geo.raycast_on_iff", "Geo.raycast_in_iff", "Geo.raycast_on_not_in", "Geo.raycast_symm", "Geo.segIntersects_iff", "Geo.segIntersects_symm", "Geo.segContainsSeg_iff", "Geo.segContainsSeg_iff_subset", "Geo.collinearPt_iff", "Geo.segBox_tight", "Geo.spec_onSeg_iff", "Geo.spec_crosses_iff", "Geo.spec_segsMeet_iff", "Geo.raycast_float_exact", "Geo.raycast_float_exact_fuel", "Geo.segIntersects_float_exact", "Geo.segIntersects_float_exact_val", "Geo.segIntersects_float_exact_partial", "Geo.containsSegment_float_exact", "Geo.collinearPoint_float_exact", "Geo.F.rn_of_F64", "Geo.F.rn_mono", "Geo.F.rn_neg", "Geo.F.rn_rel_error", "Geo.F.rn_eq_zero_iff", "Geo.F.cross_exact", "Geo.F.rn_quot_lt", "Geo.F.rn_quot_eq_iff", "Geo.F.fdiv_eq_iff", "Geo.F.fdiv_le_iff", "Geo.F.tcmp", "Geo.F.nudge_E", "Geo.F.F64_rn", "Geo.F.nextUp_least", "Geo.F.Grid_nextUp", "Geo.F.rn_quot_le_iff", "Geo.F.nextUp_E", "Geo.kgen_raycast_float_exact", "Geo.kgen_intersectsSegment_float_exact", "Geo.kgen_containsSegment_float_exact", "Geo.kgen_collinearPoint_float_exact", "Geo.F.kgen_raycast_handF", "Geo.F.kgen_intersects_handF"],
         "trivial_sigs": RAY_TRIVIAL | SI_TRIVIAL,
-        "claim": "Proof (Lean 4): raycast on/in, segment-intersects (symmetric), segment-contains, collinear-point and segment box are exact for all rational points incl. degenerate segments, with the IEEE division corner cases handled explicitly. Tie: exhaustive small lattices and adversarial random cases over regime E.",
+        "claim": "Proof (Lean 4): raycast on/in, segment-intersects (symmetric), segment-contains, collinear-point and segment box are exact for all rational points incl. degenerate segments, with the IEEE division corner cases handled explicitly. Float bridge (Props/FloatBridge.lean): the kernels RE-TRANSLATED from geometry/raycast.go and segment.go on every run (translate kernel -> Generated/KernelGen.lean), evaluated in an exact model of IEEE-754 binary64 (round-to-nearest-even over Q, Nextafter, NaN/Inf), equal the exact model on the whole regime E, return sites included (kgen_raycast_float_exact, kgen_intersects_float_exact, kgen_containsSegment_float_exact, kgen_collinearPoint_float_exact). Tie: exhaustive small lattices and adversarial random cases over E against the hand model, and the generated kernels at Float against the Go code on arbitrary doubles (NaN, Inf, denormals, huge magnitudes).",
         "rule": "exhaustive (segment,point) triples on the 5x5 lattice and segment pairs on the 4x4 lattice (6x6/5x5 thorough) "
                 "plus random and adversarial cases over the regime E; a case is distinct by its op text and non-trivial when "
                 "the model's return site is not a bounding-box / range early reject",
@@ -51,10 +52,10 @@ PROPS = {
     "C04": {
         "suites": ["c04"],
         "level": "proof",
-        "proof_module": "GeoProofs.Props.C04",
-        "theorems": ["Geo.qtree_search_exact", "Geo.rtree_search_exact", "Geo.rtree_search_exact_of_NE", "Geo.rBuild_items_counterexample", "Geo.readNum_appendNum", "Geo.qSearchTree_eq_foldUntil", "Geo.qVisit_perm_filter", "Geo.qInsert_inv", "Geo.qInsert_items", "Geo.qBuild_spec", "Geo.rSearchTree_eq_foldUntil", "Geo.rVisit_eq_filter", "Geo.splitEntries_perm", "Geo.rBuild_spec'", "Geo.series_search_exact_none", "Geo.series_search_exact_quadtree", "Geo.series_search_exact_rtree", "Geo.segBox_inside_rect", "Geo.series_search_exact_rtree_dyadic", "Geo.series_search_exact_dyadic", "Geo.decF64_encF64", "Geo.rtree_search_exact_patched", "Geo.rBuild_good"],
+        "proof_module": "GeoProofs.Props.C04All",
+        "theorems": ["Geo.qtree_search_exact", "Geo.rtree_search_exact", "Geo.rtree_search_exact_of_NE", "Geo.rBuild_items_counterexample", "Geo.readNum_appendNum", "Geo.qSearchTree_eq_foldUntil", "Geo.qVisit_perm_filter", "Geo.qInsert_inv", "Geo.qInsert_items", "Geo.qBuild_spec", "Geo.rSearchTree_eq_foldUntil", "Geo.rVisit_eq_filter", "Geo.splitEntries_perm", "Geo.rBuild_spec'", "Geo.series_search_exact_none", "Geo.series_search_exact_quadtree", "Geo.series_search_exact_rtree", "Geo.segBox_inside_rect", "Geo.series_search_exact_rtree_dyadic", "Geo.series_search_exact_dyadic", "Geo.decF64_encF64", "Geo.rtree_search_exact_patched", "Geo.rBuild_good", "Geo.searchAny_perm", "Geo.searchAny_index_indep", "Geo.intersectsSegment_fold_perm", "Geo.ringIntersectsSegment_index_indep", "Geo.ringIntersectsSegmentS_index_indep", "Geo.ringIntersectsLine_index_indep", "Geo.ringIntersectsRing_index_indep", "Geo.lineIntersectsLine_index_indep", "Geo.lineContainsLine_index_indep", "Geo.lineContainsPoint_index_indep", "Geo.polyContainsPoint_index_indep", "Geo.polyIntersectsLine_index_indep", "Geo.polyIntersectsPoly_index_indep", "Geo.polyIntersectsRect_index_indep", "Geo.ringContainsSegment_index_indep", "Geo.ringContainsSegment_index_indep_simple", "Geo.ringContainsSegmentS_false_index_indep", "Geo.ringContainsRing_index_indep", "Geo.ringContainsLine_index_indep", "Geo.Geom.Sim.intersects", "Geo.Geom.Sim.contains", "Geo.geom_intersects_index_indep", "Geo.geom_intersects_index_indep₂", "Geo.geom_contains_index_indep", "Geo.geom_contains_index_indep₂", "Geo.geom_intersects_index_indep_sized", "Geo.geom_contains_index_indep_sized", "Geo.ringContainsSegmentS_eq_V", "Geo.ringContainsSegmentS_eq_L", "Geo.ringContainsSegment_order_dependent_counterexample", "Geo.pinched_unindexed", "Geo.ringContainsSegment_not_sim_invariant", "Geo.rtree_series_foldOn", "Geo.ring17_rOrder", "Geo.ringContainsSegment_rtree_vs_none", "Geo.ringContainsSegment_not_index_indep", "Geo.geom_contains_rtree_vs_none", "Geo.qtree_series_foldOn", "Geo.ring37_strip_order", "Geo.ringContainsSegment_quadtree_vs_none"],
         "trivial_sigs": {"se0"},
-        "claim": "Proof (Lean 4), any carrier whose comparison is a strict weak order (nothing assumed about midpoints; R-tree: subtraction with exact sign), any size, any query: searching the compressed quadtree / R-tree bytes is the early-exit fold over a visit list that is a permutation of the brute-force filter, never an out-of-range read; codec round trip; series-level corollaries for all three index kinds. Tie: index BYTES and callback sequences compared with the implementation.",
+        "claim": "Proof (Lean 4), any carrier whose comparison is a strict weak order (nothing assumed about midpoints; R-tree: subtraction with exact sign), any size, any query: searching the compressed quadtree / R-tree bytes is the early-exit fold over a visit list that is a permutation of the brute-force filter, never an out-of-range read; codec round trip; series-level corollaries for all three index kinds. Tie: index BYTES and callback sequences compared with the implementation. Index independence of the predicates (Props/C04Indep.lean): Geom.intersects has the same answer under every index configuration for all 16 kind pairs; Geom.contains likewise when the left polygon's exterior and the right polygon's holes are convex or edge-simple; for self-touching rings the clause is false (kernel-checked counterexamples on the model's real R-tree and quadtree = known finding D20).",
         "rule": "series of sizes 0..1000 (..70000 thorough) in 7 layouts, open and closed, under no index / R-tree / quadtree: index bytes "
                 "compared with the model's, searches with strip, infinite, degenerate and empty queries at 4 stop positions; plus "
                 "implementation-only checks on arbitrary doubles; non-trivial = a search that visits at least one segment",
@@ -63,9 +64,9 @@ PROPS = {
         "suites": ["c02"],
         "level": "proof",
         "proof_module": "GeoProofs.Props.C02All",
-        "theorems": ["Geo.rect_intersects_rect_iff", "Geo.rect_intersects_rect_illformed", "Geo.rect_intersects_symm", "Geo.lineIntersectsLine_iff", "Geo.lineIntersectsLine_symm", "Geo.lineIntersectsLine_iff_mk", "Geo.point_intersects_iff", "Geo.point_intersects_line_iff", "Geo.point_intersects_rect_spec", "Geo.geom_intersects_symm_pointrect", "Geo.geom_intersects_dispatch_symm", "Geo.geom_intersects_symm_partial", "Geo.ringIntersectsSegment_sound", "Geo.ringIntersectsSegment_sound_mk", "Geo.vertex_on_segment", "Geo.ringIntersectsLine_sound", "Geo.ringIntersectsRing_sound", "Geo.edge_identity", "Geo.edge_flip", "Geo.parity_add_eq_crossings", "Geo.parity_const_of_avoids", "Geo.parity_flips_of_one_proper_crossing_idx", "Geo.parity_flips_of_one_proper_crossing", "Geo.inRing_const_of_avoids", "Geo.segment_outside_of_avoids", "Geo.segment_inside_of_avoids", "Geo.region_meets_segment_iff", "Geo.ringIntersectsSegment_exact_all", "Geo.ringIntersectsSegment_exact_indexed", "Geo.ringIntersectsSegment_exact", "Geo.ringIntersectsSegment_two_edges", "Geo.rectRingIntersectsSegment_exact", "Geo.rectRing_region", "Geo.rectRing_illformed", "Geo.ringIntersectsLine_exact_all", "Geo.ringIntersectsLine_exact", "Geo.rectRingIntersectsLine_exact", "Geo.ringIntersectsRing_exact_all", "Geo.ringIntersectsRing_exact", "Geo.rectRingIntersectsRing_exact", "Geo.regions_share_iff", "Geo.spec_meets_iff", "Geo.geom_intersects_iff_noholes", "Geo.geom_intersects_exact_noholes", "Geo.geom_intersects_symm_noholes", "Geo.ringContainsRing_strict_exact", "Geo.spec_meets_iff_holes", "Geo.geom_intersects_exact_holes_of_convexOK", "Geo.geom_intersects_symm_holes_of_convexOK", "Geo.holesConvexOK_of_nonconvex", "Geo.geom_intersects_exact_holes_of_nonconvex", "Geo.IX.convexOK_rect", "Geo.IX.two_edges_of_meets", "Geo.IX.regions_disjoint_of_boundaries_out", "Geo.IX.strict_nesting_rect", "Geo.IX.rect_filled_strict", "Geo.IX.region_inside_of_boundary_inside"],
+        "theorems": ["Geo.rect_intersects_rect_iff", "Geo.rect_intersects_rect_illformed", "Geo.rect_intersects_symm", "Geo.lineIntersectsLine_iff", "Geo.lineIntersectsLine_symm", "Geo.lineIntersectsLine_iff_mk", "Geo.point_intersects_iff", "Geo.point_intersects_line_iff", "Geo.point_intersects_rect_spec", "Geo.geom_intersects_symm_pointrect", "Geo.geom_intersects_dispatch_symm", "Geo.geom_intersects_symm_partial", "Geo.ringIntersectsSegment_sound", "Geo.ringIntersectsSegment_sound_mk", "Geo.vertex_on_segment", "Geo.ringIntersectsLine_sound", "Geo.ringIntersectsRing_sound", "Geo.edge_identity", "Geo.edge_flip", "Geo.parity_add_eq_crossings", "Geo.parity_const_of_avoids", "Geo.parity_flips_of_one_proper_crossing_idx", "Geo.parity_flips_of_one_proper_crossing", "Geo.inRing_const_of_avoids", "Geo.segment_outside_of_avoids", "Geo.segment_inside_of_avoids", "Geo.region_meets_segment_iff", "Geo.ringIntersectsSegment_exact_all", "Geo.ringIntersectsSegment_exact_indexed", "Geo.ringIntersectsSegment_exact", "Geo.ringIntersectsSegment_two_edges", "Geo.rectRingIntersectsSegment_exact", "Geo.rectRing_region", "Geo.rectRing_illformed", "Geo.ringIntersectsLine_exact_all", "Geo.ringIntersectsLine_exact", "Geo.rectRingIntersectsLine_exact", "Geo.ringIntersectsRing_exact_all", "Geo.ringIntersectsRing_exact", "Geo.rectRingIntersectsRing_exact", "Geo.regions_share_iff", "Geo.spec_meets_iff", "Geo.geom_intersects_iff_noholes", "Geo.geom_intersects_exact_noholes", "Geo.geom_intersects_symm_noholes", "Geo.ringContainsRing_strict_exact", "Geo.spec_meets_iff_holes", "Geo.geom_intersects_exact_holes_of_convexOK", "Geo.geom_intersects_symm_holes_of_convexOK", "Geo.holesConvexOK_of_nonconvex", "Geo.geom_intersects_exact_holes_of_nonconvex", "Geo.IX.convexOK_rect", "Geo.IX.two_edges_of_meets", "Geo.IX.regions_disjoint_of_boundaries_out", "Geo.IX.strict_nesting_rect", "Geo.IX.rect_filled_strict", "Geo.IX.region_inside_of_boundary_inside", "Geo.convexOK_of_support", "Geo.supportOK_of_simple", "Geo.convexOK_of_simple", "Geo.holesConvexOK_of_valid", "Geo.geom_intersects_exact_holes", "Geo.geom_intersects_symm_holes", "Geo.pentagram_not_convex"],
         "trivial_sigs": set(),
-        "claim": "Proof (Lean 4): for un-indexed shapes, intersects equals the exact specification (share a point) for ALL 16 kind pairs of valid shapes without holes, and with holes whenever every hole ring is non-convex-flagged, rectangular, or satisfies the stated convexity hypothesis ConvexOK (geom_intersects_exact_noholes, geom_intersects_exact_holes_of_convexOK, symmetry as corollary); ring x segment/line/ring exactness holds for every vertex list, via the discrete Jordan lemma (parity constant along an avoiding segment, flips across one proper crossing) which is proved from a per-edge identity. NOT proved: that a ring whose turns all have the same orientation bounds a convex region (enters only as ConvexOK), and the lift of the region-level theorems to indexed series beyond ring x segment. Tie: model<->implementation correspondence plus the executable specification on generated valid shapes in contact configurations, both operand orders, 5 index configurations.",
+        "claim": "Proof (Lean 4): for un-indexed shapes, intersects equals the exact point-set specification (share a point) for ALL 16 kind pairs of VALID shapes, holes included, with no further hypothesis (geom_intersects_exact_holes, symmetry as corollary geom_intersects_symm_holes): discrete Jordan lemma (GeoProofs/Jordan) + the convexity theorem for simple rings (GeoProofs/Convex: a simple ring whose turns all have one sign bounds a convex region; false without simplicity: pentagram_not_convex). Soundness of true for arbitrary (invalid) shapes; rect x rect, point x X, line x line exact for arbitrary inputs. Indexed shapes: via C04 index independence (unconditional for intersects). Tie: correspondence on generated pairs in contact configurations judged against the executable specification.",
         "rule": "sampled (thorough: all) ordered pairs of small shapes on the 3x3 lattice; generated polygons (rectangles, notched, "
                 "star-shaped, with holes) against probes built from their vertices, edge midpoints and nearby lattice points, both operand "
                 "orders, 5 index configurations; non-trivial = distinct pair judged by the exact oracle (both shapes valid)",
@@ -73,10 +74,10 @@ PROPS = {
     "C03": {
         "suites": ["c03"],
         "level": "proof",
-        "proof_module": "GeoProofs.Props.C03",
-        "theorems": ["Geo.line_walk_terminates", "Geo.line_containsLine_eq", "Geo.rect_contains_rect_iff", "Geo.rect_contains_rect_illformed", "Geo.rect_contains_point_iff", "Geo.rect_contains_point_spec", "Geo.point_contains_point_iff", "Geo.point_contains_rect_iff", "Geo.box_contains_seriesRect_iff", "Geo.rect_contains_line_iff", "Geo.rect_contains_line_empty", "Geo.rect_contains_line_iff_onSeg", "Geo.rect_contains_poly_iff", "Geo.rect_contains_rectpoly", "Geo.seriesRect_eq_ptbox_iff", "Geo.point_contains_line_iff", "Geo.point_contains_poly_iff", "Geo.line_contains_point_iff", "Geo.line_contains_point_spec", "Geo.D4_wrong_true", "Geo.D4_wrong_false", "Geo.D5_wrong_true", "Geo.D5_wrong_false", "Geo.D13_wrong_true"],
+        "proof_module": "GeoProofs.Props.C03All",
+        "theorems": ["Geo.line_walk_terminates", "Geo.line_containsLine_eq", "Geo.rect_contains_rect_iff", "Geo.rect_contains_rect_illformed", "Geo.rect_contains_point_iff", "Geo.rect_contains_point_spec", "Geo.point_contains_point_iff", "Geo.point_contains_rect_iff", "Geo.box_contains_seriesRect_iff", "Geo.rect_contains_line_iff", "Geo.rect_contains_line_empty", "Geo.rect_contains_line_iff_onSeg", "Geo.rect_contains_poly_iff", "Geo.rect_contains_rectpoly", "Geo.seriesRect_eq_ptbox_iff", "Geo.point_contains_line_iff", "Geo.point_contains_poly_iff", "Geo.line_contains_point_iff", "Geo.line_contains_point_spec", "Geo.D4_wrong_true", "Geo.D4_wrong_false", "Geo.D5_wrong_true", "Geo.D5_wrong_false", "Geo.D13_wrong_true", "Geo.ringContainsSegment_of_avoids", "Geo.ringContainsSegment_of_avoids_all", "Geo.ringContainsSegment_false_of_avoids", "Geo.ringContainsRing_of_avoids", "Geo.ringContainsRing_of_avoids_all", "Geo.ringContainsRing_of_avoids_rect", "Geo.ringContainsLine_of_avoids", "Geo.ringIntersectsSegment_of_avoids", "Geo.ringIntersectsLine_strict_of_avoids", "Geo.ringIntersectsRing_strict_of_avoids", "Geo.poly_contains_line_of_no_contact", "Geo.poly_contains_rect_of_no_contact", "Geo.poly_contains_point_exact", "Geo.poly_contains_poly_noholes_of_no_contact", "Geo.poly_contains_exact_of_no_contact", "Geo.poly_containsPoly_closed_form", "Geo.line_contains_of_no_contact", "Geo.interiorOK_of_check", "Geo.ringContainsRing_shortcut_counterexample", "Geo.poly_contains_general_position_counterexample"],
         "trivial_sigs": set(),
-        "claim": "Partial proof (Lean 4): point and rect receivers exact, Line.ContainsLine terminates (fuel never exhausted), machine-checked witnesses of the recorded defects D4/D5/D13; general exactness is NOT proved (and is false: known findings). Decided by correspondence plus the exact cut-and-sample specification (Spec.covers); pinned wrong answers are attributed to known findings only when implementation == model and the shapes are in boundary contact.",
+        "claim": "Partial proof (Lean 4): point and rect receivers exact; Line.ContainsLine terminates (fuel never exhausted); in general position (the boundaries of the two shapes avoid one another, the >=16-point rectangle shortcut excluded) contains of polygon x line/rect/polygon equals the specification (poly_contains_exact_of_no_contact and companions, via the discrete Jordan lemma); machine-checked witnesses of the recorded defects D4/D5/D13/D19. Exactness in contact configurations is NOT proved (and is false: known findings). Decided there by correspondence plus the exact cut-and-sample specification (Spec.covers); pinned wrong answers are attributed to known findings only when implementation == model on that input and the contact signature matches.",
         "rule": "as C02, plus ring-level contains/intersects-segment exports; non-trivial = distinct pair judged by the exact oracle",
     },
     "C05": {
@@ -108,18 +109,18 @@ PROPS = {
     },
     "C08": {
         "suites": ["c08"],
-        "level": "proof", "proof_module": "GeoProofs.Props.C08", "theorems": ["Geo.index_opts_accept_same", "Geo.index_opts_error_same", "Geo.index_opts_obsEq", "Geo.obsEq_write", "Geo.obsEq_attrs", "Geo.allowSimplePoints_write", "Geo.requireValid_filter", "Geo.allowRects_write_partial", "Geo.allowRects_write_counterexample"],
+        "level": "proof", "proof_module": "GeoProofs.Props.C08All", "theorems": ["Geo.index_opts_accept_same", "Geo.index_opts_error_same", "Geo.index_opts_obsEq", "Geo.obsEq_write", "Geo.obsEq_attrs", "Geo.allowSimplePoints_write", "Geo.requireValid_filter", "Geo.allowRects_write_partial", "Geo.allowRects_write_counterexample", "Geo.obsEq_sim", "Geo.obsEq_intersects", "Geo.obsEq_contains", "Geo.obsEq_within", "Geo.obsEq_contains_ringsSafe", "Geo.obsEq_spatial", "Geo.dyadic_searchOK", "Geo.obsEq_intersects_dyadic", "Geo.obsEq_contains_dyadic", "Geo.parse_built", "Geo.parseTop_index_opts", "Geo.parse_index_opts_intersects", "Geo.parse_index_opts_contains", "Geo.parse_index_opts_intersects'", "Geo.parse_index_opts_contains'", "Geo.parse_contains_rtree_vs_none", "Geo.parse_index_opts_contains_counterexample", "Geo.parse_contains_holes_rtree_vs_none", "Geo.parse_index_opts_contains_holes_counterexample"],
         "trivial_sigs": set(),
-        "claim": "Proof on the AST model (Lean 4): index options change neither acceptance nor the object up to index bytes nor its JSON/attributes; AllowSimplePoints changes only the constructor; RequireValid is exactly a filter; AllowRects preserves the JSON except for a negative-zero corner (proved counterexample = known finding D18). Predicate equality across index options rests on C04/C01. Tie: option-matrix correspondence with answer groups.",
+        "claim": "Proof on the AST model (Lean 4): index options change neither acceptance nor the object up to index bytes nor its JSON/attributes (index_opts_obsEq, obsEq_write, obsEq_attrs) NOR any Intersects answer against any object (obsEq_intersects, parse_index_opts_intersects: object level and Parse level, all kinds, for dyadic coordinates within the size bounds), nor Contains/Within when polygon rings are convex or edge-simple (obsEq_contains, parse_index_opts_contains; the side condition cannot be dropped: parse_index_opts_contains_counterexample = known finding D20); AllowSimplePoints changes only the constructor; RequireValid is exactly a filter; AllowRects preserves the JSON except for a negative-zero corner (proved counterexample = known finding D18). Tie: the same text under a matrix of options, groups of JSON / attributes / predicate answers must be identical.",
         "rule": "each document parsed under a matrix of option sets (index thresholds 0,1,n,n+1,64 x both kinds; simple points; rects): JSON, "
                 "attributes and predicate answers against probe objects must be identical across the matrix; require-valid judged as a filter",
     },
     "C09": {
         "suites": ["c09"],
-        "level": "proof", "proof_module": "GeoProofs.Props.C09", "theorems": ["Geo.within_is_contains_swapped", "Geo.feature_transparent", "Geo.feature_center", "Geo.feature_argument_transparent_leaf", "Geo.feature_argument_not_transparent_counterexample", "Geo.simplepoint_as_point_receiver", "Geo.simplepoint_as_point_argument", "Geo.simplepoint_as_point", "Geo.contains_empty_false", "Geo.empty_iff_all_leaves_empty", "Geo.contains_empty_receiver_false", "Geo.intersects_empty_false", "Geo.intersects_empty_receiver_false", "Geo.intersects_empty_false_point", "Geo.contains_implies_rect_covers_partial", "Geo.contains_implies_intersects_partial", "Geo.intersects_implies_rects_meet_partial", "Geo.intersects_empty_false_partial", "Geo.intersects_iff_atoms", "Geo.feature_argument_transparent_intersects", "Geo.intersects_iff_atoms_rect", "Geo.intersects_symm_partial", "Geo.leaf_contains_rect_covers_point_rect", "Geo.leaf_intersects_rects_meet_point_rect", "Geo.leaf_intersects_symm_point_rect", "Geo.leaf_contains_intersects_point_rect", "Geo.leaf_contains_intersects_rect_counterexample", "Geo.pr_not_empty", "Geo.point_rect_contains_implies_rect_covers", "Geo.point_rect_intersects_implies_rects_meet", "Geo.point_rect_intersects_symm", "Geo.point_rect_contains_implies_intersects", "Geo.DispatchFacts.dispatch_table_pinned", "Geo.DispatchFacts.within_forwards_to_contains", "Geo.DispatchFacts.json_wrappers", "Geo.DispatchFacts.feature_forwards"],
+        "level": "proof", "proof_module": "GeoProofs.Props.C09All", "theorems": ["Geo.within_is_contains_swapped", "Geo.feature_transparent", "Geo.feature_center", "Geo.feature_argument_transparent_leaf", "Geo.feature_argument_not_transparent_counterexample", "Geo.simplepoint_as_point_receiver", "Geo.simplepoint_as_point_argument", "Geo.simplepoint_as_point", "Geo.contains_empty_false", "Geo.empty_iff_all_leaves_empty", "Geo.contains_empty_receiver_false", "Geo.intersects_empty_false", "Geo.intersects_empty_receiver_false", "Geo.intersects_empty_false_point", "Geo.contains_implies_rect_covers_partial", "Geo.contains_implies_intersects_partial", "Geo.intersects_implies_rects_meet_partial", "Geo.intersects_empty_false_partial", "Geo.intersects_iff_atoms", "Geo.feature_argument_transparent_intersects", "Geo.intersects_iff_atoms_rect", "Geo.intersects_symm_partial", "Geo.leaf_contains_rect_covers_point_rect", "Geo.leaf_intersects_rects_meet_point_rect", "Geo.leaf_intersects_symm_point_rect", "Geo.leaf_contains_intersects_point_rect", "Geo.leaf_contains_intersects_rect_counterexample", "Geo.pr_not_empty", "Geo.point_rect_contains_implies_rect_covers", "Geo.point_rect_intersects_implies_rects_meet", "Geo.point_rect_intersects_symm", "Geo.point_rect_contains_implies_intersects", "Geo.DispatchFacts.dispatch_table_pinned", "Geo.DispatchFacts.within_forwards_to_contains", "Geo.DispatchFacts.json_wrappers", "Geo.DispatchFacts.feature_forwards", "Geo.leaf_intersects_rects_meet", "Geo.intersects_implies_rects_meet", "Geo.leaf_rects_meet_rawseries_counterexample", "Geo.leaf_contains_rect_covers", "Geo.leaf_contains_rect_covers_line_line_counterexample", "Geo.contains_implies_rect_covers", "Geo.leaf_empty_intersects_false", "Geo.intersects_empty_false_all", "Geo.intersects_iff_atoms_all", "Geo.feature_argument_transparent_intersects_all", "Geo.leaf_intersects_symm", "Geo.intersects_symm_made", "Geo.intersects_symm_valid", "Geo.leaf_intersects_exact", "Geo.intersects_exact", "Geo.leaf_contains_intersects", "Geo.leaf_contains_intersects_shortcut_counterexample", "Geo.contains_implies_intersects_valid", "Geo.mkSeries_eq_plain", "Geo.leafWF_lineString", "Geo.leafWF_polygon", "Geo.leafSymOK_polygon", "Geo.leafOK_point", "Geo.leafOK_rect", "Geo.leafOK_lineString", "Geo.leafOK_polygon", "Geo.leaf_intersects_exact_indexed", "Geo.intersects_exact_indexed"],
         "translators": [{"name": "dispatch", "out": "Dispatch.lean"}],
         "trivial_sigs": set(),
-        "claim": "Proof (Lean 4) of the object-level algebra on the model: within = contains swapped, Feature/SimplePoint transparency, reduction of the algebra laws to leaf-level facts (proved for point/rect leaves), counterexample for Feature-of-collection as argument (known finding D16); the dispatch bodies of all 13 types are re-extracted from the source on every run and pinned (dispatch_table_pinned). Laws also judged on the implementation (incl. circles).",
+        "claim": "Proof (Lean 4) of the object-level algebra on the model: within = contains swapped, Feature/SimplePoint transparency, reduction of the algebra laws to leaf-level facts AND the leaf facts for all five leaf kinds (Props/C09Leaf.lean): Intersects implies the rectangles meet and an empty object intersects nothing (all objects), Intersects is symmetric (all objects built by the constructors, holes and invalid rings included), Contains implies the rectangle covers (every pair except LineString in LineString: D4 counterexample), Contains implies Intersects for valid leaves with arguments below 16 points (D19 counterexample above), Intersects = some pair of atoms shares a point (intersects_exact). Counterexample for Feature-of-collection as argument (D16). The dispatch bodies of all 13 types are re-extracted from the source on every run and pinned (dispatch_table_pinned). Tie: correspondence on object pairs of all kinds incl. contact configurations + implementation-side algebra oracle.",
         "rule": "ordered pairs of objects of all kinds built by the constructors (collections nested, features, empties): six predicate answers "
                 "compared with the model, the algebra laws judged on the implementation (xalgebra), wrapper transparency by answer groups "
                 "(Feature vs geometry, Rect vs 5-point polygon, SimplePoint vs Point), circles by implementation-only laws",
@@ -199,10 +200,10 @@ PROPS = {
     "C12": {
         "suites": ["c12"],
         "level": "proof",
-        "proof_module": "GeoProofs.Props.C12Jordan",
-        "theorems": ["Geo.raycast_translate", "Geo.raycast_scale", "Geo.raycast_translate_eq", "Geo.raycast_scale_eq", "Geo.segIntersectsS_translate", "Geo.segIntersectsS_scale", "Geo.segIntersects_translate", "Geo.segIntersects_scale", "Geo.collinearPt_translate", "Geo.collinearPt_scale", "Geo.segContainsSeg_translate", "Geo.segContainsSeg_scale", "Geo.onSeg_reflX", "Geo.onSeg_reflY", "Geo.onSeg_transpose", "Geo.segsMeet_reflX", "Geo.segsMeet_reflY", "Geo.segsMeet_transpose", "Geo.raycast_on_reflX", "Geo.raycast_on_reflY", "Geo.raycast_on_transpose", "Geo.segIntersects_reflX", "Geo.segIntersects_reflY", "Geo.segIntersects_transpose", "Geo.segContainsSeg_reflX", "Geo.segContainsSeg_reflY", "Geo.segContainsSeg_transpose", "Geo.lineIntersectsLine_of_symm", "Geo.lineIntersectsLine_reflX", "Geo.lineIntersectsLine_reflY", "Geo.lineIntersectsLine_transpose", "Geo.lineContainsPoint_of_symm", "Geo.lineContainsPoint_reflX", "Geo.lineContainsPoint_reflY", "Geo.lineContainsPoint_transpose", "Geo.raycast_inn_reflX_counterexample", "Geo.processPoints_translate", "Geo.processPoints_scale", "Geo.processPoints_map_empty", "Geo.convexSpec_reflX", "Geo.convexSpec_reflY", "Geo.convexSpec_transpose", "Geo.clockwiseSpec_reflX", "Geo.clockwiseSpec_reflY", "Geo.clockwiseSpec_transpose", "Geo.processPoints_reflX", "Geo.processPoints_reflY", "Geo.processPoints_transpose", "Geo.ringContainsPoint_translate", "Geo.ringContainsPoint_scale", "Geo.ringContainsPoint_translate_hit", "Geo.ringContainsPoint_scale_hit", "Geo.ringContainsSegment_aff", "Geo.ringIntersectsSegment_aff", "Geo.ringContainsRing_aff", "Geo.ringIntersectsRing_aff", "Geo.ringIntersectsLine_aff", "Geo.line_containsLineO_aff", "Geo.geom_contains_aff", "Geo.geom_intersects_aff", "Geo.geom_contains_translate", "Geo.geom_intersects_translate", "Geo.geom_contains_scale", "Geo.geom_intersects_scale", "Geo.raycast_inn_neg_scale_counterexample", "Geo.parity_left_eq_right"],
+        "proof_module": "GeoProofs.Props.C12All",
+        "theorems": ["Geo.raycast_translate", "Geo.raycast_scale", "Geo.raycast_translate_eq", "Geo.raycast_scale_eq", "Geo.segIntersectsS_translate", "Geo.segIntersectsS_scale", "Geo.segIntersects_translate", "Geo.segIntersects_scale", "Geo.collinearPt_translate", "Geo.collinearPt_scale", "Geo.segContainsSeg_translate", "Geo.segContainsSeg_scale", "Geo.onSeg_reflX", "Geo.onSeg_reflY", "Geo.onSeg_transpose", "Geo.segsMeet_reflX", "Geo.segsMeet_reflY", "Geo.segsMeet_transpose", "Geo.raycast_on_reflX", "Geo.raycast_on_reflY", "Geo.raycast_on_transpose", "Geo.segIntersects_reflX", "Geo.segIntersects_reflY", "Geo.segIntersects_transpose", "Geo.segContainsSeg_reflX", "Geo.segContainsSeg_reflY", "Geo.segContainsSeg_transpose", "Geo.lineIntersectsLine_of_symm", "Geo.lineIntersectsLine_reflX", "Geo.lineIntersectsLine_reflY", "Geo.lineIntersectsLine_transpose", "Geo.lineContainsPoint_of_symm", "Geo.lineContainsPoint_reflX", "Geo.lineContainsPoint_reflY", "Geo.lineContainsPoint_transpose", "Geo.raycast_inn_reflX_counterexample", "Geo.processPoints_translate", "Geo.processPoints_scale", "Geo.processPoints_map_empty", "Geo.convexSpec_reflX", "Geo.convexSpec_reflY", "Geo.convexSpec_transpose", "Geo.clockwiseSpec_reflX", "Geo.clockwiseSpec_reflY", "Geo.clockwiseSpec_transpose", "Geo.processPoints_reflX", "Geo.processPoints_reflY", "Geo.processPoints_transpose", "Geo.ringContainsPoint_translate", "Geo.ringContainsPoint_scale", "Geo.ringContainsPoint_translate_hit", "Geo.ringContainsPoint_scale_hit", "Geo.ringContainsSegment_aff", "Geo.ringIntersectsSegment_aff", "Geo.ringContainsRing_aff", "Geo.ringIntersectsRing_aff", "Geo.ringIntersectsLine_aff", "Geo.line_containsLineO_aff", "Geo.geom_contains_aff", "Geo.geom_intersects_aff", "Geo.geom_contains_translate", "Geo.geom_intersects_translate", "Geo.geom_contains_scale", "Geo.geom_intersects_scale", "Geo.raycast_inn_neg_scale_counterexample", "Geo.parity_left_eq_right", "Geo.parity_reflX", "Geo.parity_reflY", "Geo.parity_transpose", "Geo.parityUp_eq_parity", "Geo.parity_reflX_onBoundary_counterexample", "Geo.onBoundary_reflX", "Geo.onBoundary_reflY", "Geo.onBoundary_transpose", "Geo.inRing_reflX", "Geo.inRing_reflY", "Geo.inRing_transpose", "Geo.strictIn_reflX", "Geo.strictIn_reflY", "Geo.strictIn_transpose", "Geo.member_reflX", "Geo.member_reflY", "Geo.member_transpose", "Geo.member_reflX_illformed_rect", "Geo.valid_reflX", "Geo.valid_reflY", "Geo.valid_transpose", "Geo.holesConvexOK_reflX", "Geo.holesConvexOK_reflY", "Geo.holesConvexOK_transpose", "Geo.meets_reflX", "Geo.meets_reflY", "Geo.meets_transpose", "Geo.geom_intersects_reflX", "Geo.geom_intersects_reflY", "Geo.geom_intersects_transpose", "Geo.geom_intersects_reflX_noholes", "Geo.geom_intersects_reflY_noholes", "Geo.geom_intersects_transpose_noholes", "Geo.Sym.parity_map", "Geo.meets_reflX_of_valid", "Geo.geom_intersects_reflX_mapPts", "Geo.geom_intersects_reflY_mapPts", "Geo.geom_intersects_transpose_mapPts", "Geo.geom_mapPts_reflX_rect_wrong", "Geo.parity_rot90", "Geo.parity_neg", "Geo.geom_intersects_rot90", "Geo.geom_intersects_neg"],
         "trivial_sigs": set(),
-        "claim": "Partial proof (Lean 4): every kernel, membership, ring-level heuristic and the whole contains/intersects matrix are equivariant under translation and positive scaling (un-indexed shapes); on-segment, segment intersection, line x line and line-contains-point invariant under reflections and transposition; convex/clockwise transform as expected. NOT proved: polygon membership under reflections/transposition (Jordan), start-vertex independence of the contains heuristics (false: D4/D5). Tie: metamorphic answer groups on the implementation.",
+        "claim": "Partial proof (Lean 4): every kernel, membership, ring-level heuristic and the whole contains/intersects matrix are equivariant under translation and positive scaling (un-indexed shapes); crossing parity, ring and shape membership, validity, the meets specification and Geom.intersects are invariant under reflection in x, in y, transposition, quarter turn and point reflection (Props/C12Sym.lean); on-segment, segment intersection, line x line and line-contains-point likewise; convex/clockwise transform as expected. NOT proved: contains under reflections and start-vertex rotation (false in contact configurations: D4/D5/D13). Tie: metamorphic answer groups on the implementation.",
         "rule": "generated pairs under translation (also via Move), scaling by 2,4,1024, reflection in x, in y, transposition, every "
                 "rotation of the start vertex, reversal, dropped closing vertex: answers within a group must be identical",
     },
@@ -266,11 +267,39 @@ def classify_finding(pid, ops, i, impl, spec, sig, known):
             if kf.get("op") == "oparsewfmix":
                 return kf["id"]
         return None
-    if toks[0] == "oattrs" and sig.endswith(":holeout"):
-        for kf in known:
-            if kf.get("op") == "oattrs" and kf.get("signature") == "holeout":
-                return kf["id"]
-        return None
+    if toks[0] == "oattrs":
+        # fields: "<empty><valid> <rect> <centre> <numPoints>"; every differing field must be
+        # accounted for by a listed finding whose signature flag the model printed for this object
+        flags = sig.split(":")[2:]
+        it, st = impl.split(), spec.split()
+        if len(it) < 3 or len(st) < 3 or len(it[0]) != 2 or len(st[0]) != 2:
+            return None
+        ids = []
+        def finding(signature):
+            for kf in known:
+                if kf.get("op") == "oattrs" and kf.get("signature") == signature:
+                    return kf["id"]
+            return None
+        if it[0][0] != st[0][0]:
+            return None                       # emptiness is never a listed finding
+        if it[0][1] != st[0][1]:
+            # a collection's validity is the validity of its cached rectangle: it misses out-of-range
+            # positions of parts that occupy no space (D21) and of holes outside the exterior's box (D15)
+            f = None
+            if it[0][1] == "1":
+                if "emptyinvalid" in flags:
+                    f = finding("emptyinvalid")
+                elif "holeout" in flags:
+                    f = finding("holeout")
+            if not f:
+                return None
+            ids.append(f)
+        if it[1] != st[1] or it[2] != st[2]:
+            f = finding("holeout") if "holeout" in flags else None
+            if not f:
+                return None
+            ids.append(f)
+        return ids[0] if ids else None
     if toks[0] != "pred":
         return None
     ka, kb = _kind_of(ops, i, toks[1]), _kind_of(ops, i, toks[2])
@@ -351,9 +380,47 @@ def classify_group_c09(ops, members, impl, model, known_all):
     return None
 
 
+def classify_group_c08_d20(ops, members, impl, model, known_all):
+    """D20 at Parse level: the same document with a self-touching ring under different index options;
+    only contains/within answers differ, every member is pinned behaviour"""
+    import binascii, json
+    known = [k for k in known_all["open"] if k["property"] == "C08" and k.get("op") == "group-opred-selftouching"]
+    if not known:
+        return None
+    vals = set(m[1] for m in members)
+    if len(set(v[2:4] for v in vals)) != 1:
+        return None   # an intersects answer varies
+    for (i, _) in members:
+        if impl[i] != model[i].split(" | ")[0]:
+            return None
+    touching = False
+    for (i, _) in members:
+        toks = ops[i].split()[2:]
+        if toks[0] != "opred":
+            return None
+        for ident in toks[1:3]:
+            for j in range(i - 1, -1, -1):
+                t = ops[j].split()
+                if t and t[0] == "oreset":
+                    break
+                if len(t) > 3 and t[0].startswith("oparse") and t[1] == ident:
+                    try:
+                        doc = json.loads(binascii.unhexlify(t[3]).decode("utf8"))
+                    except Exception:
+                        return None
+                    rings = []
+                    _json_rings(doc, rings)
+                    if _rings_self_touching(rings):
+                        touching = True
+                    break
+    return known[0]["id"] if touching else None
+
+
 def classify_group_c08(ops, members, impl, model, known_all):
     """D18: JSON outputs of an option group that differ only by -0 versus 0"""
     import re, binascii
+    if members and ops[members[0][0]].split()[2:3] == ["opred"]:
+        return classify_group_c08_d20(ops, members, impl, model, known_all)
     known = [k for k in known_all["open"] if k["property"] == "C08" and k.get("op") == "group-ojson-negzero"]
     if not known:
         return None
@@ -373,7 +440,90 @@ def classify_group_c08(ops, members, impl, model, known_all):
     return known[0]["id"] if len(texts) == 1 else None
 
 
+def _ring_self_touching(t):
+    """t: tokens of a `def X poly k m nrings n x y ...`: does some ring have two edges that meet
+    other than at an end point shared by consecutive edges (a pinched / self-crossing ring)?"""
+    from fractions import Fraction as F
+    try:
+        nr = int(t[5]); pos = 6; rings = []
+        for _ in range(nr):
+            n = int(t[pos]); pos += 1
+            rings.append([(F(t[pos + 2 * k]), F(t[pos + 2 * k + 1])) for k in range(n)]); pos += 2 * n
+    except Exception:
+        return False
+    return _rings_self_touching(rings)
+
+
+def _json_rings(v, out):
+    """every list of >= 4 positions inside a JSON value (candidate rings)"""
+    from fractions import Fraction as F
+    if isinstance(v, dict):
+        for x in v.values():
+            _json_rings(x, out)
+    elif isinstance(v, list):
+        if len(v) >= 4 and all(isinstance(p, list) and len(p) >= 2 and all(isinstance(c, (int, float)) and not isinstance(c, bool) for c in p[:2]) for p in v):
+            out.append([(F(p[0]), F(p[1])) for p in v])
+        else:
+            for x in v:
+                _json_rings(x, out)
+
+
+def _rings_self_touching(rings):
+    def cross(a, b, c):
+        return (b[0] - a[0]) * (c[1] - a[1]) - (b[1] - a[1]) * (c[0] - a[0])
+    def on(a, b, p):
+        return cross(a, b, p) == 0 and min(a[0], b[0]) <= p[0] <= max(a[0], b[0]) and min(a[1], b[1]) <= p[1] <= max(a[1], b[1])
+    def meet(a, b, c, d):
+        d1, d2, d3, d4 = cross(a, b, c), cross(a, b, d), cross(c, d, a), cross(c, d, b)
+        if ((d1 > 0 and d2 < 0) or (d1 < 0 and d2 > 0)) and ((d3 > 0 and d4 < 0) or (d3 < 0 and d4 > 0)):
+            return True
+        return on(a, b, c) or on(a, b, d) or on(c, d, a) or on(c, d, b)
+    for r in rings:
+        if r and r[0] != r[-1]:
+            r = r + [r[0]]
+        es = [(r[k], r[k + 1]) for k in range(len(r) - 1)]
+        n = len(es)
+        for x in range(n):
+            for y in range(x + 1, n):
+                adjacent = (y == x + 1) or (x == 0 and y == n - 1)
+                if not adjacent:
+                    if meet(*es[x], *es[y]):
+                        return True
+                else:
+                    # consecutive edges may share only the common vertex
+                    (a, b), (c, d) = es[x], es[y]
+                    shared = b if y == x + 1 else a
+                    other1 = a if y == x + 1 else b
+                    other2 = d if y == x + 1 else c
+                    if on(c, d, other1) or on(a, b, other2):
+                        return True
+    return False
+
+
+def classify_group_c04(ops, members, impl, model, known_all):
+    """D20: inclusive contains of a polygon with a self-touching ring differs between index kinds"""
+    known = [k for k in known_all["open"] if k["property"] == "C04" and k.get("op") == "group-index-selftouching"]
+    if not known:
+        return None
+    vals = set(m[1] for m in members)
+    if len(set(v[1:] for v in vals)) != 1:
+        return None   # an intersects answer varies: never a listed finding
+    for (i, _) in members:
+        if impl[i] != model[i].split(" | ")[0]:
+            return None
+    for (i, _) in members:
+        toks = ops[i].split()[2:]
+        if toks[0] != "pred":
+            return None
+        t = _def_of(ops, i, toks[1])
+        if t is None or t[2] != "poly" or not _ring_self_touching(t):
+            return None
+    return known[0]["id"]
+
+
 def classify_group(pid, ops, members, impl, model, known_all):
+    if pid == "C04":
+        return classify_group_c04(ops, members, impl, model, known_all)
     if pid == "C08":
         return classify_group_c08(ops, members, impl, model, known_all)
     if pid == "C09":
